@@ -2,8 +2,11 @@ package c06
 
 import (
 	"fmt"
-	"github.com/lianxiangcloud/linkchain/libs/crypto"
 	"math/big"
+	"reflect"
+	"unsafe"
+
+	"github.com/lianxiangcloud/linkchain/libs/crypto"
 
 	cfg "github.com/lianxiangcloud/linkchain/config"
 	"github.com/lianxiangcloud/linkchain/libs/common"
@@ -173,11 +176,38 @@ func (w *world) genTransfer(pending map[common.Hash]*intent) {
 		to = w.acct(a).Addr // to itself
 	}
 	v := w.lkcValue()
+	if w.r.Chance(0.12) {
+		// a hand-made transfer that bids more than the network gas price (no constructor of the repository makes
+		// one; it arrives over RPC / p2p). Gas is bought and refunded at the transaction's price while the fee
+		// collector is credited at the network price: if such a transaction is admitted at all, the ledger
+		// oracles below decide whether value was conserved.
+		tx := types.NewTransaction(w.nonce[a], to, v, chainkit.TransferGas(v), big.NewInt(types.ParGasPrice), nil)
+		bid := new(big.Int).Add(big.NewInt(types.ParGasPrice), big.NewInt(int64(1+w.r.Intn(3))*int64(w.r.Range(1, int(types.ParGasPrice)))))
+		setTxPrice(tx, bid)
+		if tx.GasPrice().Cmp(bid) != 0 {
+			w.c.Count("harness_price_not_settable", 1)
+			return
+		}
+		if err := tx.Sign(types.GlobalSTDSigner, w.acct(a).Key); err != nil {
+			return
+		}
+		w.c.Count("offered:transfer-gas-price-above-network-price", 1)
+		if w.submit(pending, tx, &intent{Kind: "transfer", From: w.acct(a).Addr, To: to, Token: lkc, Value: v, Gas: tx.Gas(), acct: a}) {
+			w.c.Count("admitted:transfer-gas-price-above-network-price", 1)
+		}
+		return
+	}
 	tx, err := chainkit.NewTransfer(w.acct(a), w.nonce[a], to, v)
 	if err != nil {
 		return
 	}
 	w.submit(pending, tx, &intent{Kind: "transfer", From: w.acct(a).Addr, To: to, Token: lkc, Value: v, Gas: tx.Gas(), acct: a})
+}
+
+// setTxPrice sets the (unexported) gas price of a transaction the way a decoder does.
+func setTxPrice(tx *types.Transaction, p *big.Int) {
+	f := reflect.ValueOf(tx).Elem().FieldByName("data").FieldByName("Price")
+	reflect.NewAt(f.Type(), unsafe.Pointer(f.UnsafeAddr())).Elem().Set(reflect.ValueOf(p))
 }
 
 func (w *world) tokenValue(a int, t common.Address) *big.Int {
